@@ -33,14 +33,21 @@ VARIABLES l,        \* next line to consume
           pcr,      \* property the restart guards belong to: "C06" (restart after a
                     \* failure) or "C05" (restart after an interruption of mrp)
           weakp,    \* the program has an unforked merge over a run-time collection
+          jowner,   \* journal file name -> directory of the job that wrote it
+          routing,  \* the journal file mrp is attributing right now ("" = none)
+          rname,    \* the sentinel name that entry announces
+          mdjob,    \* job directory -> job it was created for
           tainted,  \* the known "unforked-merge" defect has manifested in this run
           bad       \* violations found so far
 
-vars == <<l, run, exp, faults, begun, ended, killed, done0, failed, phase, pcr, weakp, tainted, bad>>
+vars == <<l, run, exp, faults, begun, ended, killed, done0, failed, phase, pcr, weakp, jowner, routing,
+          rname, mdjob, tainted, bad>>
+jvars == <<jowner, routing, rname, mdjob>>
 
 Init == /\ l = 1 /\ run = "" /\ exp = <<>> /\ faults = <<>> /\ begun = {} /\ ended = <<>>
         /\ killed = {} /\ done0 = {} /\ failed = {} /\ phase = 0 /\ pcr = "C06"
         /\ weakp = FALSE /\ tainted = FALSE /\ bad = <<>>
+        /\ jowner = <<>> /\ routing = "" /\ rname = "" /\ mdjob = <<>>
 
 Ev == Trace[l]
 Viol(p, what) == [run |-> run, line |-> l, prop |-> p, job |-> Ev.job, what |-> what]
@@ -63,6 +70,7 @@ RunBegin ==
     /\ begun' = {} /\ ended' = <<>> /\ killed' = {} /\ done0' = {} /\ failed' = {}
     /\ phase' = 0 /\ tainted' = FALSE /\ weakp' = Ev.weak
     /\ pcr' = IF Ev.kind = "crash" THEN "C05" ELSE "C06"
+    /\ jowner' = <<>> /\ routing' = "" /\ rname' = "" /\ mdjob' = <<>>
     /\ UNCHANGED bad
 
 (* ---- guards on the start of a job ---- *)
@@ -106,20 +114,53 @@ StageBegin ==
     /\ begun' = begun \cup {Ev.job}
     /\ killed' = killed \ {Ev.job}
     /\ tainted' = (tainted \/ (Ev.job \in DOMAIN exp /\ WeakBroken(exp[Ev.job])))
-    /\ UNCHANGED <<run, exp, faults, ended, done0, failed, phase, pcr, weakp>>
+    /\ UNCHANGED <<run, exp, faults, ended, done0, failed, phase, pcr, weakp, jvars>>
 
 StageEnd ==
     /\ Ev.ev = "StageEnd"
     /\ ended' = (Ev.job :> Ev.outcome) @@ ended
     /\ failed' = IF Ev.outcome # "ok" /\ Ev.job \in DOMAIN exp
                  THEN failed \cup {exp[Ev.job].inst} ELSE failed
-    /\ UNCHANGED <<run, exp, faults, begun, killed, done0, phase, pcr, weakp, tainted, bad>>
+    /\ UNCHANGED <<run, exp, faults, begun, killed, done0, phase, pcr, weakp, tainted, bad, jvars>>
 
 (* a job that was running when mrp exited dies with it *)
 StageKilled ==
     /\ Ev.ev = "StageKilled"
     /\ killed' = killed \cup {Ev.job}
-    /\ UNCHANGED <<run, exp, faults, begun, ended, done0, failed, phase, pcr, weakp, tainted, bad>>
+    /\ UNCHANGED <<run, exp, faults, begun, ended, done0, failed, phase, pcr, weakp, tainted, bad, jvars>>
+
+(* C11: every notification is attributed to exactly the job directory (node, fork,
+   chunk, attempt) that wrote it, and distinct jobs never share a directory *)
+JobSubmitted ==
+    /\ Ev.ev = "JobSubmitted"
+    /\ bad' = bad \o (IF Ev.kind \in DOMAIN mdjob /\ mdjob[Ev.kind] # Ev.job
+                      THEN <<Viol("C11", "two distinct jobs share one directory " \o Ev.kind \o ": also " \o mdjob[Ev.kind])>>
+                      ELSE <<>>)
+    /\ mdjob' = (Ev.kind :> Ev.job) @@ mdjob
+    /\ UNCHANGED <<run, exp, faults, begun, ended, killed, done0, failed, phase, pcr, weakp, tainted, jowner, routing, rname>>
+JournalWrite ==
+    /\ Ev.ev = "JournalWrite"
+    /\ bad' = bad \o (IF Ev.txt \in DOMAIN jowner /\ jowner[Ev.txt] # Ev.kind
+                      THEN <<Viol("C11", "two jobs write the same journal name " \o Ev.txt)>> ELSE <<>>)
+    /\ jowner' = (Ev.txt :> Ev.kind) @@ jowner
+    /\ UNCHANGED <<run, exp, faults, begun, ended, killed, done0, failed, phase, pcr, weakp, tainted, routing, rname, mdjob>>
+JournalSeen ==
+    /\ Ev.ev = "JournalSeen"
+    /\ routing' = Ev.txt /\ rname' = Ev.kind
+    /\ UNCHANGED <<run, exp, faults, begun, ended, killed, done0, failed, phase, pcr, weakp, tainted, jowner, mdjob, bad>>
+JournalRemove ==
+    /\ Ev.ev = "JournalRemove"
+    /\ routing' = "" /\ rname' = ""
+    /\ UNCHANGED <<run, exp, faults, begun, ended, killed, done0, failed, phase, pcr, weakp, tainted, jowner, mdjob, bad>>
+MdCache ==
+    /\ Ev.ev = "MdCache"
+    \* (asynchronous cleanup goroutines cache their own files meanwhile: only the
+    \* sentinel the entry announces counts)
+    /\ bad' = bad \o (IF routing # "" /\ Ev.txt = rname /\ routing \in DOMAIN jowner /\ jowner[routing] # Ev.kind
+                      THEN <<Viol("C11", "the notification " \o routing \o " written for " \o jowner[routing]
+                                         \o " was attributed to " \o Ev.kind)>>
+                      ELSE <<>>)
+    /\ UNCHANGED <<run, exp, faults, begun, ended, killed, done0, failed, phase, pcr, weakp, tainted, jvars>>
 
 (* mrp was interrupted: killed outright, or by a signal it handles - then the
    pipestance must be left unlocked (flag = no _lock after the exit) *)
@@ -128,7 +169,7 @@ Interrupted ==
     /\ bad' = bad \o (IF Ev.kind # "SIGKILL" /\ ~Ev.flag
                       THEN <<Viol("C05", "mrp exited on the handled signal " \o Ev.kind \o " but left the pipestance locked")>>
                       ELSE <<>>)
-    /\ UNCHANGED <<run, exp, faults, begun, ended, killed, done0, failed, phase, pcr, weakp, tainted>>
+    /\ UNCHANGED <<run, exp, faults, begun, ended, killed, done0, failed, phase, pcr, weakp, tainted, jvars>>
 
 (* ---- guards on the final state of an incarnation ---- *)
 EndViolations ==
@@ -160,7 +201,7 @@ EndViolations ==
 RunEnd ==
     /\ Ev.ev = "RunEnd"
     /\ bad' = bad \o EndViolations
-    /\ UNCHANGED <<run, exp, faults, begun, ended, killed, done0, failed, phase, pcr, weakp, tainted>>
+    /\ UNCHANGED <<run, exp, faults, begun, ended, killed, done0, failed, phase, pcr, weakp, tainted, jvars>>
 
 (* the operator removes the fault and starts mrp again on the same directory *)
 Restart ==
@@ -169,15 +210,17 @@ Restart ==
     /\ faults' = <<>>
     /\ done0' = {k \in DOMAIN ended : OkEnded(k)}
     /\ begun' = {} /\ failed' = {}
-    /\ UNCHANGED <<run, exp, ended, killed, pcr, weakp, tainted, bad>>
+    /\ UNCHANGED <<run, exp, ended, killed, pcr, weakp, tainted, bad, jvars>>
 
 Other ==
-    /\ Ev.ev \notin {"RunBegin", "StageBegin", "StageEnd", "StageKilled", "RunEnd", "Restart", "Interrupted"}
-    /\ UNCHANGED <<run, exp, faults, begun, ended, killed, done0, failed, phase, pcr, weakp, tainted, bad>>
+    /\ Ev.ev \notin {"RunBegin", "StageBegin", "StageEnd", "StageKilled", "RunEnd", "Restart", "Interrupted",
+                     "JobSubmitted", "JournalWrite", "JournalSeen", "JournalRemove", "MdCache"}
+    /\ UNCHANGED <<run, exp, faults, begun, ended, killed, done0, failed, phase, pcr, weakp, tainted, bad, jvars>>
 
 Next == /\ l <= Len(Trace)
         /\ l' = l + 1
-        /\ (RunBegin \/ StageBegin \/ StageEnd \/ StageKilled \/ RunEnd \/ Restart \/ Interrupted \/ Other)
+        /\ (RunBegin \/ StageBegin \/ StageEnd \/ StageKilled \/ RunEnd \/ Restart \/ Interrupted
+            \/ JobSubmitted \/ JournalWrite \/ JournalSeen \/ JournalRemove \/ MdCache \/ Other)
 
 Spec == Init /\ [][Next]_vars
 
